@@ -655,5 +655,51 @@ Proof.
   all: intros _; right; repeat split; try reflexivity; try (now apply opt_eqb_N_eq).
   all: eexists; autorewrite with sup; rewrite N.eqb_refl, Hx; cbn; split; [reflexivity|]; cbn; auto.
 Qed.
+
+Definition nf_ev (e : event) : bool :=
+  match e with ENewInst _ _ | EProcEnd _ _ | EProcEnded _ _ | ECmdExit _ _ => true | _ => false end.
+
+Lemma nf_run s th e s' : step_core s th e = Some s' -> nf_ev e = true ->
+  viss s' = viss s /\
+  forall j y, get j (insts s) = Some y -> exists y', get j (insts s') = Some y' /\ nm y' = nm y /\ l_done y' = l_done y /\
+                                              (runpc (pc y) = true -> runpc (pc y') = true).
+Proof.
+  intros H Hnf. unfold step_core in H. destruct e; try discriminate Hnf; kind_cases H.
+  all: unfold set_pc; cbn; autorewrite with sup; split; [reflexivity|]; intros j y Hy; autorewrite with sup.
+  all: try rewrite get_set.
+  all: try match goal with |- context[N.eqb ?a ?b] => destruct (N.eqb_spec a b); [subst b|] end.
+  all: try (exists y; split; [assumption|]; repeat split; auto; fail).
+  all: try match goal with E : get ?i (insts _) = Some ?y, Hx : get ?i (insts _) = Some ?x |- _ => rewrite E in Hx; injection Hx as <- end.
+  all: try match goal with E : get ?i (insts _) = Some ?y |- _ => rewrite ?E end; cbn.
+  all: try (eexists; split; [reflexivity|]; cbn;
+            repeat match goal with E : pc _ = _ |- _ => rewrite E; clear E end; cbn; repeat split; auto; fail).
+  1:{ exfalso. unfold has in E0. rewrite Hy in E0. discriminate. }
+  all: eexists; split; [reflexivity|]; cbn;
+       repeat match goal with E : pc _ = _ |- _ => rewrite E; clear E end; cbn; repeat split; auto; discriminate.
+Qed.
+
+Lemma ev_class e : own_ev e = false -> frame_ev e = true \/ nf_ev e = true \/ exists i s0, e = EState i s0.
+Proof. destruct e; cbn; intros H; try discriminate H; eauto. Qed.
+
+Lemma c_run_step s o th e s' : Rc cs s o -> Inv s o -> step_core s th e = Some s' -> own_ev e = false -> c_run s'.
+Proof.
+  intros HRc HI H Hev. destruct (ev_class e Hev) as [Hf|[Hnf|(i & s0 & ->)]].
+  - eapply c_run_frame; [eapply step_core_csame; eauto|apply (iv_run _ _ HI)].
+  - destruct (nf_run _ _ _ _ H Hnf) as [Ev Hi]. intros n v Hv Hr. rewrite Ev in Hv.
+    destruct (iv_run _ _ HI n v Hv Hr) as (j & y & Hy & Hn & Hd & Hp).
+    destruct (Hi j y Hy) as (y' & Hy' & En & Ed & Hrp). exists j, y'. repeat split; auto; congruence.
+  - cbn in H. destruct (state_effect _ _ _ _ _ H) as (x & Hx & Hoth & Hvoth & Hvn & Hrun).
+    intros n v' Hv' Hr. destruct (N.eq_dec n (nm x)) as [->|Hne].
+    + rewrite (Hvn v' Hv') in Hr. destruct (Hrun Hr) as [(c & Hpc)|(-> & Hpc & Hth & x' & Hx' & Hpc' & Ed & En)].
+      * exfalso. destruct (rc_inst _ _ _ HRc i x Hx) as (xo & Hxo & _).
+        pose proof (pi_end _ _ _ (iv_inst _ _ HI i x xo Hx Hxo)) as He. rewrite Hpc in He. cbn in He.
+        destruct s0; discriminate.
+      * exists i, x'. repeat split; auto; [|now rewrite Hpc'].
+        rewrite Ed. destruct (l_done x) eqn:Hd; [|reflexivity]. exfalso.
+        destruct (rc_inst _ _ _ HRc i x Hx) as (xo & Hxo & _).
+        pose proof (pi_done _ _ _ (iv_inst _ _ HI i x xo Hx Hxo) Hd) as Hn. unfold nl in Hn. rewrite Hpc in Hn. discriminate.
+    + rewrite (Hvoth n Hne) in Hv'. destruct (iv_run _ _ HI n v' Hv' Hr) as (j & y & Hy & Hn & Hd & Hp).
+      exists j, y. rewrite Hoth; [auto|]. intros ->. congruence.
+Qed.
 (*STOP*)
 End RelC03.
